@@ -114,13 +114,23 @@ class SymFlag:
 
     __repr__ = __str__
 
-    # attribute fallbacks used by the real methods (`self.name`, pretty_name) are not needed:
-    # cast's error message only formats the operands with str().
+    def __getattr__(self, name):
+        # a SymFlag stored in an AST node must answer the DataType API: delegate to the REAL function objects
+        from hpl.types import DataType
+        import types as _types
+        attr = DataType.__dict__.get(name)
+        if isinstance(attr, property):
+            return attr.fget(self)
+        if isinstance(attr, _types.FunctionType):
+            return _types.MethodType(attr, self)
+        raise AttributeError(name)
 
 
-def explore(fn: Callable[[], Any], width: int) -> Tuple[List[Tuple[Any, Tuple[str, Any]]], _Ctx]:
+def explore(fn: Callable[[], Any], width: int, pre=()) -> Tuple[List[Tuple[Any, Tuple[str, Any]]], _Ctx]:
     """Run fn() under all feasible decision sequences. Returns [(pc, outcome)], ctx (for stats)."""
     ctx = _Ctx(width)
+    for c in pre:
+        ctx.solver.add(c)  # precondition on the symbolic inputs: prunes infeasible branches
     _CTX.append(ctx)
     results = []
     try:
